@@ -35,6 +35,15 @@ func (e *Env) dstNodeNames() []string { return sortedKeys(e.dstTypes) }
 // missing case cannot pass silently (panicking default arm), where the sibling has one.
 func (e *Env) RCover(name string, expected []string, needPanicDefault bool) {
 	s := e.Sib.ByName[name]
+	if s == nil || s.Err != nil {
+		why := "sibling not extracted"
+		if s != nil {
+			why = s.Err.Error()
+		}
+		// the function lost its overall shape: the anchor the rule rests on is gone
+		e.Run.Violation("R-SHAPE", "sibling shape: "+name, "", why)
+		return
+	}
 	want := map[string]bool{}
 	for _, t := range expected {
 		want[t] = true
